@@ -1,14 +1,16 @@
 // C39: concurrent shard operations stay race-free and consistent.
 //
 // Engine: vsched on a REAL tsdb.Shard (tsm1 engine, tsi1 index, series file, WAL on /dev/shm; background
-// compaction goroutines enabled as in production). Two or three shard operations run concurrently from one of
-// three storage layouts; EVERY schedule with <= B deviations from the default schedule (branching at the
-// sync/atomic operations of Shard, Engine, Cache, entry and the compaction strategy; every other lock of
-// tsdb/shard.go and of package tsm1 is modelled too) is executed on the real code. Oracle: no panic, no
-// deadlock, every thread finishes; the recorded call/return history, extended with three sequential reads
-// after the run (right after, after a later cache snapshot, after a restart), is linearizable per point
-// w.r.t. a map model with range delete; a successful CreateSnapshot counts as a read of the snapshot's
-// content. A free-running repetition of every scenario body (no scheduler) is a smoke pass.
+// compaction goroutines enabled as in production; tsdb/shard.go and every file of tsm1 and tsi1 that uses
+// sync compiled against the modelled sync/atomic). Two or three shard operations run concurrently from one
+// of three storage layouts; EVERY schedule with <= B deviations from the default schedule is executed on
+// the real code. Oracle: no panic, no deadlock (scheduler: nothing enabled within the fake-time horizon;
+// real-time watchdog for goroutines stuck where the scheduler cannot see them), every thread finishes;
+// operations fail only for a documented reason; the recorded call/return history, extended with three
+// sequential reads after the run (right after, after a later cache snapshot, after a restart), is
+// linearizable per point w.r.t. a map model with range delete; a successful CreateSnapshot counts as a read
+// of the snapshot's content; a series with points is listed by the index. A free-running repetition of
+// every scenario body (no scheduler) is a smoke pass.
 package c39
 
 import (
@@ -951,6 +953,7 @@ func body(sc Scenario, x *vrt.Exec, res *result) {
 		pts  []Pt
 	}
 	var posts []post
+	idxFlagged := false
 	closedNow := false
 	if _, err := sh.Engine(); err != nil {
 		closedNow = true
@@ -977,7 +980,8 @@ func body(sc Scenario, x *vrt.Exec, res *result) {
 		if idx, err := indexedSeries(cur); err != nil {
 			add("read-error/"+when, "series cursor: "+errClass(err))
 		} else {
-			if len(pts) > 0 && !idx[s1] {
+			if len(pts) > 0 && !idx[s1] && !idxFlagged {
+				idxFlagged = true // once per execution: the later phases only repeat it
 				add("series-missing-from-index/"+when+"/"+sc.opsKey(), fmt.Sprintf("s1 has the points [%s] %s but the index does not list the series any more (index-driven queries cannot find them)", fmtPts(pts), when))
 			}
 			if !idx[s2] {
@@ -1327,7 +1331,10 @@ func branchWide(kind vrt.OpKind, label string) bool {
 const hangTimeout = 60 * time.Second
 const freeHangTimeout = 20 * time.Second // a free-running execution takes well under a second
 
+var fatalTotal int
+
 var freeSeen = map[string]bool{}
+var hangSeen = map[string]string{}
 
 var hung atomic.Bool // an execution of this process hangs: stop exploring (every further one would cost the timeout)
 
@@ -1390,6 +1397,20 @@ func runFree(t *testing.T, sc Scenario) *result {
 	}
 }
 
+// freeSig is the class of a finding of the free-running smoke pass: kind of failure + "overlaps Shard.Close"
+// or the operations (no phase, no schedule: there is none).
+func freeSig(sc Scenario, sig string) string {
+	kind := sig
+	if i := strings.Index(sig, "/"); i >= 0 {
+		kind = sig[:i]
+	}
+	where := sc.opsKey()
+	if sc.has("close") {
+		where = "overlaps-Shard.Close"
+	}
+	return "free-running/" + kind + "/" + where
+}
+
 type Case struct {
 	Scenario Scenario `json:"scenario"`
 	Choices  []int    `json:"schedule,omitempty"`
@@ -1405,6 +1426,23 @@ type Case struct {
 // are the cause already listed for C03 and get the same signature.
 func attribute(sc Scenario, v verdict, r *vrt.Result) string {
 	sig := v.sig
+	if strings.HasPrefix(sig, "series-missing-from-index/") && r != nil {
+		// the delete dropped the series from the index because it found no data left: was the data in a cache
+		// snapshot taken before the delete looked at the cache (same root cause as the C03 finding, other symptom)?
+		snapAt, delAt := -1, -1
+		for k, s := range r.Steps {
+			if snapAt < 0 && strings.Contains(s.Label, "(*Cache).Snapshot:Lock") {
+				snapAt = k
+			}
+			if delAt < 0 && strings.Contains(s.Label, "(*Cache).DeleteRange:Lock") {
+				delAt = k
+			}
+		}
+		if snapAt >= 0 && (delAt < 0 || snapAt < delAt) && !sc.has("write", "write2") {
+			return "series-missing-from-index/series-data-in-cache-snapshot-taken-before-Cache.DeleteRange"
+		}
+		return sig
+	}
 	i := strings.Index(sig, "|v=")
 	if i < 0 {
 		return sig
@@ -1471,7 +1509,7 @@ func explore(t *testing.T, c *vlib.Ctx, sc Scenario, wide bool, bound int, ownsR
 	}
 	var rec func(prefix []int, root bool)
 	rec = func(prefix []int, root bool) {
-		if c.Expired() || fatal >= 5 || hung.Load() {
+		if c.Expired() || fatal >= 40 || fatalTotal >= 300 || hung.Load() {
 			st.Complete = false
 			return
 		}
@@ -1488,6 +1526,7 @@ func explore(t *testing.T, c *vlib.Ctx, sc Scenario, wide bool, bound int, ownsR
 			visit(x, res)
 			if res.fatal {
 				fatal++
+				fatalTotal++ // abandoned executions leak their fixture (goroutines, descriptors, mappings)
 			}
 		}
 		if x.Diverged != "" || res.fatal {
@@ -1534,15 +1573,17 @@ func traceOf(r *vrt.Result) []string {
 func TestCheck(t *testing.T) {
 	vlib.Main(t, &vlib.Check{
 		ID: "C39", Level: "model_checking",
-		Rule: "scenarios = 3 initial layouts of series s1 (points t=1,2,3 in the cache; t=1,2 in one TSM file + t=3 in the cache; t=1 and t=2 in two TSM files + t=3 in the cache; control series s2) × every unordered pair (self-pairs included) of the shard operations {WritePoints(s1 t=2,4) [second writer: t=2,5], read cursor over s1 (CreateCursorIterator, open, iterate with scheduling points while it holds TSM references, close), DeleteSeriesRange(s1,[2,3]), cache snapshot (one tick of Engine.compactCache: WriteSnapshot), CreateSnapshot(skipCacheOk=false), level compaction and full compaction of all TSM files of the layout through the engine's own compact* path (one tick of Engine.compact; skipped for the cache-only layout), Shard.Close}; plus selected triples (quick: 5 on the 1-TSM layout; thorough: 10 × 3 layouts) and, thorough only, Shard.Backup (tar) against {write, delete, snapshot, level compaction, close}. For each scenario EVERY schedule with ≤ B deviations from the default schedule is executed on a real tsdb.Shard (quick: B=1; thorough: B=2 for pairs, B=1 for triples and tar backups), branching at the sync/atomic operations of Shard, Engine, Cache, entry and compactionStrategy and at the harness steps. After the threads finish: read s1/s2, write a later cache snapshot, read, restart the shard, read. Each scenario body is additionally repeated free-running (no scheduler; quick 1×, thorough 30×) as a smoke pass. states = decision nodes, transitions = scheduling steps, traces = scheduled executions; non-trivial = scheduled executions with ≥1 deviation",
+		Rule: "operations = {WritePoints(s1 t=2,4) [a second writer writes t=2,5], read (a query holding two cursors: CreateCursorIterator + cursor over s1, then a second iterator + cursor over the control series s2 while the first holds its TSM references, iterate both, close; scheduling points while cursors are open), DeleteSeriesRange(s1,[2,3]), DeleteSeriesRange(s1, everything) [delete-all: also cleans the index], cache snapshot (one tick of Engine.compactCache = WriteSnapshot, counted in the engine's snapshot WaitGroup), CreateSnapshot(skipCacheOk=false) [backup], level compaction and full compaction of all TSM files of the layout (levelCompactionStrategy/fullCompactionStrategy(group).Apply(), counted in the engine's compaction WaitGroup like the goroutine Engine.compact starts), Shard.Close; thorough also Shard.Backup (tar)} on a real tsdb.Shard from 3 initial layouts of series s1 (points t=1,2,3 in the cache; t=1,2 in one TSM file + t=3 in the cache; t=1 and t=2 in two TSM files + t=3 in the cache; control series s2; compactions are skipped on the cache-only layout). QUICK: on the 1-TSM layout every ordered pair of different operations (delete-all only against close/write/snapshot/level compaction) plus the self-pairs; on the other two layouts both orders of 8 core pairs; 3 triples on the 1-TSM layout; every schedule with ≤1 deviation from the default schedule (default = thread 0 with its worker goroutines, then thread 1; one deviation = the other operation runs as a block at a branching point). THOROUGH: every unordered pair (self-pairs included) × 3 layouts with ≤2 deviations; 10 triples × 3 layouts and tar-backup pairs with ≤1 deviation; every pair × 3 layouts again with the wide branching filter and ≤1 deviation. Schedules branch at the sync/atomic operations that the operation threads themselves execute in Shard, Engine, Cache, entry and Compactor (wide filter: also FileStore, TSMReader, KeyCursor, purger, WAL) and at the harness steps; goroutines started by the operations and the engine's background goroutines are scheduled as forced moves. After the threads finish: read s1/s2 and list the index, write a later cache snapshot, read, restart the shard, read. Each scenario body is additionally repeated free-running (no scheduler; quick 1×, thorough 30×) as a smoke pass. states = decision nodes, transitions = scheduling steps, traces = scheduled executions; non-trivial = scheduled executions with ≥1 deviation",
 		Assumptions: []string{
-			"sequentially consistent interleavings at the granularity of mutex/atomic operations; schedules branch only at Shard/Engine/Cache/entry/compactionStrategy operations (all other locks of tsdb/shard.go and package tsm1 are modelled and can disable a thread, but are passed silently when free); the writer preference of sync.RWMutex is not modelled",
-			"data races on plain memory are outside this check: the race detector cannot be built through vf (no -race) and is blind under the cooperative scheduler; the free-running repetitions are only a smoke pass for panics, hangs and wrong results",
-			"the cache-snapshot and compaction threads stand for one tick of the engine's background goroutines (they are counted in the engine's WaitGroups like those goroutines and use the engine's own compact* methods on a caller-chosen group instead of the planner's)",
-			"oracle: per-point linearizability (a read that overlaps a write or delete may see either side independently for every point); an operation that returned an error may or may not have taken effect; a successful CreateSnapshot(skipCacheOk=false) is treated as a read of s1, a tar Backup only as 'readable and free of values nobody wrote'",
+			"sequentially consistent interleavings at the granularity of mutex/atomic operations of tsdb/shard.go, package tsm1 and package tsi1 (all compiled against the modelled sync); locks that are not branching points are passed silently when free and disable the thread when held; the writer preference of sync.RWMutex is not modelled; series file and everything else use the real sync",
+			"data races on plain memory are outside this check: the race detector cannot be built through vf (no -race) and is blind under the cooperative scheduler; the free-running repetitions are only a smoke pass for panics, hangs and wrong results, their findings are not deterministic (replay = repeat the body until the class shows up again)",
+			"the cache-snapshot and compaction threads stand for goroutines of the engine's background machinery (counted in the engine's WaitGroups like those goroutines; the compaction group is chosen by the harness instead of the planner)",
+			"oracle: per-point linearizability of the call/return history plus three sequential reads (a read overlapping a write or delete may see either side independently for every point); an operation that returned an error may or may not have taken effect; operations may fail only while/after a Shard.Close runs or with ErrSnapshotInProgress against another snapshot; a successful CreateSnapshot(skipCacheOk=false) is treated as a read of s1, a tar Backup only as 'readable and free of values nobody wrote'; a series with points must be listed by the index",
+			"a goroutine that restarts Engine.compact after Shard.Close (delete finishing after the close) is stopped by the harness and only noted in the outcome class, not reported",
 			"free-running executions that return a deleted point in scenarios combining a delete with a cache snapshot match the finding already listed for C03 but cannot be attributed without a trace; they are counted (free_running_known_pattern) and not reported",
+			"executions that end in a deadlock, panic or hang are abandoned with their fixture (goroutines, descriptors); exploration of a scenario stops after 40 of them",
 		},
-		QuickBudgetS: 70, ThoroughBudgetS: 1300, WorkerEnv: []string{"GOMAXPROCS=1"},
+		QuickBudgetS: 70, ThoroughBudgetS: 800, WorkerEnv: []string{"GOMAXPROCS=1"},
 		Run: func(c *vlib.Ctx) {
 			type job struct {
 				sc    Scenario
@@ -1592,15 +1633,17 @@ func TestCheck(t *testing.T) {
 				}
 				sig := attribute(sc, v, r)
 				if r == nil {
-					if strings.HasPrefix(sig, "deleted-point-returned/") && sc.has("delete", "delete-all") && sc.has("snapshot", "backup", "tar-backup") {
+					if (strings.HasPrefix(sig, "deleted-point-returned/") || strings.HasPrefix(sig, "series-missing-from-index/")) &&
+						sc.has("delete", "delete-all") && sc.has("snapshot", "backup", "tar-backup") {
 						c.Extra("free_running_known_pattern", 1)
 						return
 					}
-					sig = "free-running/" + sig
+					sig = freeSig(sc, sig)
 					cs.Sig = sig
 				}
 				c.Violation(sig, sc.String()+": "+v.msg, cs)
 			}
+			deadlocked := map[string]bool{} // scenarios in which this worker's scheduled pass found a deadlock / hang
 			// quick: whole scenarios are dealt round-robin; thorough: the subtrees below the root's children are
 			var ctr *int64
 			if c.Thorough() {
@@ -1632,6 +1675,9 @@ func TestCheck(t *testing.T) {
 						c.Outcome("execution abandoned (deadlock / panic / thread not finished)")
 					}
 					for _, v := range res.verdicts {
+						if strings.HasPrefix(v.sig, "deadlock/") || strings.HasPrefix(v.sig, "hang/") {
+							deadlocked[j.sc.String()] = true
+						}
 						report(j.sc, j.wide, v, r)
 					}
 					if c.WantSample() && r.Preempts > 0 {
@@ -1658,12 +1704,18 @@ func TestCheck(t *testing.T) {
 				if !c.Mine(int64(ji)) || j.wide {
 					continue
 				}
+				if deadlocked[j.sc.String()] {
+					// free-running it would only hang (at the cost of the watchdog) on what is already reported
+					c.Extra("free_running_skipped_scheduled_deadlock", 1)
+					continue
+				}
 				for k := 0; k < reps; k++ {
 					if c.Expired() {
 						c.Cap("budget expired during the free-running smoke pass")
 						break
 					}
 					if hung.Load() {
+						c.Cap("the free-running smoke pass of a worker stopped after an execution hung")
 						break
 					}
 					res := runFree(t, j.sc)
@@ -1692,12 +1744,15 @@ func TestCheck(t *testing.T) {
 				if freeSeen[key] {
 					return true, obs
 				}
+				if hung.Load() {
+					return false, "not replayed: an earlier replay hung in this process"
+				}
 				old := runtime.GOMAXPROCS(4)
 				defer runtime.GOMAXPROCS(old)
 				for k := 0; k < 300; k++ {
 					res := runFree(t, cs.Scenario)
 					for _, v := range res.verdicts {
-						if "free-running/"+attribute(cs.Scenario, v, nil) == cs.Sig {
+						if freeSig(cs.Scenario, attribute(cs.Scenario, v, nil)) == cs.Sig {
 							freeSeen[key] = true
 							return true, obs
 						}
@@ -1708,9 +1763,22 @@ func TestCheck(t *testing.T) {
 				}
 				return false, "not reproduced in 300 free-running repetitions"
 			}
+			// an execution that hung leaves its bubble and scheduler behind: nothing else can run in this process
+			ckey := string(raw)
+			if hung.Load() {
+				if o, ok := hangSeen[ckey]; ok {
+					return true, o
+				}
+				return false, "not replayed: an earlier replay hung in this process"
+			}
 			old := runtime.GOMAXPROCS(1)
 			defer runtime.GOMAXPROCS(old)
 			r, res := runScheduled(t, cs.Scenario, cs.Wide, cs.Choices)
+			if hung.Load() {
+				o := "hang/" + cs.Scenario.opsKey() + ": " + res.verdicts[0].msg
+				hangSeen[ckey] = o
+				return true, o
+			}
 			if r.Diverged != "" && (!res.fatal || res.diverged) {
 				return false, "diverged: " + r.Diverged
 			}
